@@ -6,7 +6,9 @@
    Spec.PolicyRef.chain_ref is the reference interpreter on path values with bit-level matchers. *)
 From Coq Require Import List NArith Bool.
 Import ListNotations.
-From BioVerif Require Import Model.Policy Spec.PolicyRef Proofs.PolicySim Proofs.PolicyEqual.
+From BioVerif Require Import Model.Policy Model.PolicyNet Model.PolicyConfig Spec.PolicyRef Spec.PolicyConfigSpec.
+From BioVerif Require Import Proofs.PolicySim Proofs.PolicyEqual Proofs.PolicyNetLink Proofs.PolicyConfigProofs.
+From BioVerif Require Model.NetArith Gen.NetGen.
 Local Open Scope N_scope.
 
 (* For every chain, every pattern environment, every prefix (IPv4 or IPv6, any length up to the
@@ -53,6 +55,72 @@ Theorem C14_matchers_on_bits : forall (m : matcher) (pat p : prefix),
 Proof. exact PolicyBits.matcher_ok. Qed.
 Print Assumptions C14_matchers_on_bits.
 
+(* ---- link to the net package as REGENERATED from the Go source (Gen/NetGen.v, C15's translator) *)
+
+(* Policy.v's own transcription of Prefix.Equal / Prefix.Contains is, for all words and lengths,
+   C15's hand-written model and the functions generated from net/prefix.go, net/ip.go; the engine
+   instantiated with the generated functions is the engine that is extracted and run. *)
+Theorem C14_net_link :
+  (forall p x, pfx_equal p x = NetArith.pfx_equal (to_net_pfx p) (to_net_pfx x)) /\
+  (forall p x, pfx_contains p x = NetArith.Contains (to_net_pfx p) (to_net_pfx x)) /\
+  (forall p x, pfx_equal p x = NetGen.g_Prefix_Equal (to_net_pfx p) (to_net_pfx x)) /\
+  (forall p x, pfx_contains p x = NetGen.g_Prefix_Contains (to_net_pfx p) (to_net_pfx x)) /\
+  (forall env c p st r, process_gen env c p st r = process env c p st r).
+Proof.
+  repeat split.
+  - exact equal_link.
+  - exact contains_link.
+  - intros p x. symmetry. exact (gen_equal_link p x).
+  - intros p x. symmetry. exact (gen_contains_link p x).
+  - exact process_gen_is_process.
+Qed.
+Print Assumptions C14_net_link.
+
+(* C14_process_ref restated for Chain.Process with the route-filter / prefix-list matchers computed
+   by the regenerated net.Prefix.Equal / Contains: a source change of those functions changes
+   Gen/NetGen.v and breaks this obligation. *)
+Theorem C14_process_ref_on_generated_net :
+  forall (env : penv) (c : chain) (p : prefix) (st : store) (r : nat) (v : path),
+  chain_wfb env c = true -> prefix_wfb p = true -> path_wfb v = true ->
+  nth_error st r = Some v ->
+  exists st' r',
+    process_gen env c p st r = Ok (st', r', snd (chain_ref env c p v)) /\
+    nth_error st' r' = Some (fst (chain_ref env c p v)) /\
+    (length st <= r')%nat /\
+    (forall k, (k < length st)%nat -> nth_error st' k = nth_error st k).
+Proof. exact process_ref_gen. Qed.
+Print Assumptions C14_process_ref_on_generated_net.
+
+(* ---- configuration front end (cmd/bio-rd/config/policy.go, bgp.go) *)
+
+(* Whenever the loader accepts a configuration, the import (imp = true) and export chain it attaches
+   to the neighbor evaluate, under Chain.Process, to the documented meaning of the policy
+   statements named by the neighbor (or inherited from its group): statements in the order listed,
+   terms in order, a term applies when it has no route filter or any matches, reject first, then
+   local-pref / MED / prepend / next hop, then accept. *)
+Theorem C14_config_chain_semantics : forall (cf : cfg) (ci ce : chain),
+  load_cfg cf = Some (ci, ce) ->
+  forall (imp : bool) (env : penv) (p : prefix) (st : store) (r : nat) (v : path),
+    let c := if imp then ci else ce in
+    let names := if imp then import_names cf else export_names cf in
+    chain_wfb env c = true -> prefix_wfb p = true -> path_wfb v = true -> nth_error st r = Some v ->
+    exists st' r',
+      process env c p st r = Ok (st', r', snd (policy_ref env (cfg_stmts cf) names p v)) /\
+      nth_error st' r' = Some (fst (policy_ref env (cfg_stmts cf) names p v)) /\
+      (length st <= r')%nat /\
+      (forall k, (k < length st)%nat -> nth_error st' k = nth_error st k).
+Proof. exact config_chain_semantics. Qed.
+Print Assumptions C14_config_chain_semantics.
+
+(* value level, without well-formedness: the chains mean what the configuration says *)
+Theorem C14_config_chain_ref : forall (cf : cfg) (ci ce : chain),
+  load_cfg cf = Some (ci, ce) ->
+  forall env p a,
+    chain_ref env ci p a = policy_ref env (cfg_stmts cf) (import_names cf) p a /\
+    chain_ref env ce p a = policy_ref env (cfg_stmts cf) (export_names cf) p a.
+Proof. exact load_cfg_ok. Qed.
+Print Assumptions C14_config_chain_ref.
+
 (* ---- non-vacuity *)
 
 Definition ex_env : penv := fun i =>
@@ -97,3 +165,23 @@ Example C14_example_equal :
   chain_equal ex_chain ex_chain = true /\
   chain_equal ex_chain [ [ mkTerm [] [ASetMED 8; AAccept] ] ] = false.
 Proof. vm_compute. auto. Qed.
+
+(* a configuration: statement 7 = { term (10.0.0.0/8 orlonger | 2001:db8::/48 range 56-64): local-pref
+   200, prepend 65000 x2, accept }, statement 9 = { reject }; the neighbor imports [7; 9], exports
+   the group's [9] *)
+Definition ex_cfg : cfg :=
+  mkCfg [ mkCS 7 [ mkCT [mkCRF 2 true (Some MOrLonger); mkCRF 0 true (Some (MRange 56 64))]
+                         (mkThen false (Some 200) None (Some (65000, 2)) None true) ];
+          mkCS 9 [ mkCT [] (mkThen true (Some 1) None None None true) ] ]
+        [] [9] [7; 9] [].
+
+Example C14_example_config :
+  match load_cfg ex_cfg with
+  | Some (ci, ce) => chain_wfb ex_env ci && negb (is_nil ce)
+  | None => false
+  end = true /\
+  snd (policy_ref ex_env (cfg_stmts ex_cfg) (import_names ex_cfg) (mkPfx (mkIP true 0 167837696) 16) ex_path) = false /\
+  snd (policy_ref ex_env (cfg_stmts ex_cfg) (import_names ex_cfg) (mkPfx (mkIP true 0 3232235520) 16) ex_path) = true /\
+  snd (policy_ref ex_env (cfg_stmts ex_cfg) (export_names ex_cfg) (mkPfx (mkIP true 0 167837696) 16) ex_path) = true /\
+  load_cfg (mkCfg (cfg_stmts ex_cfg) [8] [] [] []) = None.
+Proof. vm_compute. repeat split. Qed.
